@@ -203,3 +203,57 @@ def concat_parts(expr: ast.AST) -> Optional[List[ast.AST]]:
         if base == "chain" and expr.args:
             return list(expr.args)
     return None
+
+
+class Expander:
+    """Expands local names bound exactly once (plain assignment, not a loop/with target) into their defining
+    expressions, recursively: lets a rule compare what is *computed* without depending on how a refactoring
+    names its intermediate values."""
+
+    def __init__(self, func: ast.AST, keep: Iterable[str] = ()):
+        import copy as _copy
+
+        self._copy = _copy
+        self.defs = Defs(func)
+        self.keep = set(keep) | set(self.defs.params)
+        self.loop_targets: Set[str] = set()
+        for n in body_walk(func):
+            if isinstance(n, (ast.For, ast.AsyncFor)):
+                self.loop_targets |= set(target_names(n.target))
+            elif isinstance(n, ast.comprehension):
+                self.loop_targets |= set(target_names(n.target))
+            elif isinstance(n, (ast.With, ast.AsyncWith)):
+                for it in n.items:
+                    if it.optional_vars is not None:
+                        self.loop_targets |= set(target_names(it.optional_vars))
+
+    def definition(self, name: str) -> Optional[ast.AST]:
+        if name in self.keep or name in self.loop_targets:
+            return None
+        ds = self.defs.defs.get(name, [])
+        stmts = self.defs.assign_stmts.get(name, [])
+        if len(ds) != 1 or not isinstance(ds[0], ast.AST) or (stmts and isinstance(stmts[0], ast.AugAssign)):
+            return None
+        return ds[0]
+
+    def expand(self, expr: ast.AST, depth: int = 8) -> ast.AST:
+        ex = self
+
+        class T(ast.NodeTransformer):
+            def __init__(self, d):
+                self.d = d
+
+            def visit_Name(self, node):
+                if isinstance(node.ctx, ast.Load) and self.d > 0:
+                    v = ex.definition(node.id)
+                    if v is not None:
+                        return T(self.d - 1).visit(ex._copy.deepcopy(v))
+                return node
+
+            def visit_Lambda(self, node):
+                return node
+
+        return T(depth).visit(self._copy.deepcopy(expr))
+
+    def text(self, expr: ast.AST) -> str:
+        return norm(self.expand(expr))
